@@ -48,6 +48,12 @@ fn special_receivers() -> Vec<(String, Box<dyn Fn() -> Envelope>)> {
         let m = key.encrypt(b"content".to_vec(), Some(b"not a digest".to_vec()), None::<bc_components::Nonce>);
         match Envelope::try_from(m) { Ok(bad) => base.add_assertion("p", bad), Err(_) => base.clone() }
     }))); }
+    // 'sskrShare' objects that decode as an SSKR share but are too short / too odd to be one
+    for data in [vec![], vec![1u8], vec![1u8, 2], vec![1u8, 2, 3, 4, 5], vec![0xffu8; 7], vec![0u8; 37]] {
+        let (base, data) = (base.clone(), data.clone());
+        out.push((format!("'sskrShare': share of {} bytes", data.len()), Box::new(move || base.add_assertion(known_values::SSKR_SHARE, bc_components::SSKRShare::from_data(data.clone())))));
+    }
+    { let base = base.clone(); out.push(("two 'sskrShare' shares of 5 bytes with one identifier".into(), Box::new(move || base.add_assertion(known_values::SSKR_SHARE, bc_components::SSKRShare::from_data(vec![9u8, 9, 0, 0, 1])).add_assertion(known_values::SSKR_SHARE, bc_components::SSKRShare::from_data(vec![9u8, 9, 0, 1, 2]))))); }
     // encrypted / compressed elements whose content is not a well-formed envelope, bare and carrying an assertion
     for (name, payload) in super::c08::malformed_payloads().into_iter().take(3) {
         { let (key, payload) = (key.clone(), payload.clone()); out.push((format!("encrypted element holding: {}", name), Box::new(move || {
